@@ -220,8 +220,8 @@ CLAIMED = {
     "C18": {
         "category": "exploration",
         "text": "Exhaustive over all (child != 0, parent) mask pairs up to 11 (quick) / 13 (thorough) bits x both end modes against an independent "
-                "run counter, and all sequences of distinct elements up to length 11 / 13 with all their subsequences (three element alphabets) "
-                "(one of them with unhashable elements) for the mask <-> subsequence round trip; one mutable parent sequence rearranged in place through every permutation (<= 6 / 7 elements).",
+                "run counter, and all sequences of distinct elements up to length 11 / 13 with all their subsequences (six element alphabets: ints, strings, "
+                "unhashable lists, elements equal under str() but distinct under ==, elements with one common hash and text) for the mask <-> subsequence round trip; one mutable parent sequence rearranged in place through every permutation (<= 6 / 7 elements).",
         "design_ref": "6 (C18)",
         "note": "Trusted: refmodel/graphs.py:lost_runs_mask.",
         "technique": TECH_E2,
